@@ -167,6 +167,23 @@ class Ctx:
         self.loops = loops      # tuple of enclosing For/While nodes
         self.parents = parents  # tuple of enclosing compound statements
 
+    def enclosing_conditions(self):
+        """Facts contributed by the enclosing if/while statements only (no
+        early-exit facts): list of (expr, polarity)."""
+        out = []
+        child = self.stmt
+        for par in reversed(self.parents):
+            if isinstance(par, ast.If):
+                if any(x is child for x in par.body):
+                    out = atomic_facts(par.test, True) + out
+                elif any(x is child for x in par.orelse):
+                    out = atomic_facts(par.test, False) + out
+            elif isinstance(par, ast.While):
+                if any(x is child for x in par.body):
+                    out = atomic_facts(par.test, True) + out
+            child = par
+        return out
+
 
 def walk_function(fnode):
     """Yield Ctx for every statement of the function (not nested defs)."""
